@@ -91,6 +91,9 @@ type machine struct {
 
 const MaxSteps = 100000
 
+// ExtraSteps raises the step budget (long inputs; zero by default).
+var ExtraSteps int
+
 func actName(k int) string { return "Action" + itoa(k) }
 
 func itoa(k int) string {
@@ -159,7 +162,7 @@ func isLetter(r rune) bool { return r >= 'a' && r <= 'z' || r >= 'A' && r <= 'Z'
 // restored by the caller that owns the choice point.
 func (m *machine) eval(e *Expr, pos int) (int, bool) {
 	m.steps++
-	if m.steps > MaxSteps {
+	if m.steps > MaxSteps+ExtraSteps {
 		m.abort = true
 		return pos, false
 	}
